@@ -5,3 +5,5 @@ from . import c_args  # noqa: F401
 from . import c_flags  # noqa: F401
 from . import c_normalize  # noqa: F401
 from . import c_constants  # noqa: F401
+from . import c_line_mapping  # noqa: F401
+from . import c_json  # noqa: F401
